@@ -4,9 +4,10 @@ Outcome(kind) ==
   CASE kind \in {"valid", "valid2", "renamed_param"} -> "ok"
     [] kind \in {"module_removed", "function_removed", "arg_class_removed", "return_class_removed", "yield_class_removed",
                  "class_module_removed", "local_scope", "class_module_removed_ret", "arg_class_removed_2",
-                 "arg_module_removed_name_prefix"} -> "NameLookupError"
+                 "arg_module_removed_name_prefix", "elem_class_removed"} -> "NameLookupError"
     [] kind \in {"now_nonfunction", "now_class", "now_settable_property", "class_now_nontype", "class_now_nontype_ret",
-                 "dunder_removed", "dunder_removed_2", "now_builtin", "now_bound_builtin"} -> "InvalidTypeError"
+                 "dunder_removed", "dunder_removed_2", "now_builtin", "now_bound_builtin",
+                 "elem_class_now_nontype", "elem_class_now_nontype_ret"} -> "InvalidTypeError"
     [] kind = "nowraps" -> "ok_but_poisoned"
     [] OTHER -> "ok"
 DecodableKind(kind) == Outcome(kind) \in {"ok", "ok_but_poisoned"}
